@@ -1,15 +1,2243 @@
 //! Control-plane ops: term, drop.handles, ctrl.cut, rules, wire.record (C04 C05 C09 C12 C13 C16).
-use wtverif_harness::Rng;
+use std::sync::{Arc, Mutex};
+use std::time::Duration;
 
-pub async fn run(_op: &str, _a: &[String]) -> Option<Vec<String>> {
-    None
+use wtransport::{Connection, RecvStream, SendStream};
+use wtverif_harness::e2e_lib::endpoints::{self, accept_session, ClientEp, ServerEp};
+use wtverif_harness::e2e_lib::raw::{self, BiStream, RawClient, RawOpts, RawServer};
+use wtverif_harness::e2e_lib::rt::{bounded, bounded_ms, joined, TestRt, STEP_MS};
+use wtverif_harness::e2e_lib::{arg, arg_usize, canon, unhex_lenient, wire};
+use wtverif_harness::{hex, Rng};
+
+use crate::ops_data::Keep;
+
+pub async fn run(op: &str, a: &[String]) -> Option<Vec<String>> {
+    Some(match op {
+        "term" => term(a).await,
+        "drop.handles" => drop_handles(a).await,
+        "ctrl.cut" => ctrl_cut(a).await,
+        "rules" => rules(a).await,
+        "wire.record" => wire_record(a).await,
+        _ => return None,
+    })
 }
 
+fn ms(n: u64) -> Duration {
+    Duration::from_millis(n)
+}
+
+// ---------------------------------------------------------------------------------------------
+// a real endpoint with one established session against a raw peer
+
+/// The raw side of a session, whichever role it plays.
+struct Peer {
+    conn: quinn::Connection,
+    /// the raw peer's control stream
+    ctrl: Option<quinn::SendStream>,
+    /// the CONNECT stream as the raw peer holds it
+    req: Option<BiStream>,
+    /// endpoints and other streams, kept alive
+    keep: Keep,
+}
+
+impl Peer {
+    fn of_client(c: RawClient) -> Peer {
+        let RawClient {
+            ep,
+            conn,
+            ctrl,
+            req,
+            keep_send,
+            keep_recv,
+        } = c;
+        Peer {
+            conn,
+            ctrl,
+            req,
+            keep: vec![Box::new(ep), Box::new(keep_send), Box::new(keep_recv)],
+        }
+    }
+
+    fn of_server(s: RawServer, c: raw::RawServerConn) -> Peer {
+        let raw::RawServerConn {
+            conn,
+            ctrl,
+            req,
+            peer_ctrl,
+            keep_send,
+            keep_recv,
+        } = c;
+        Peer {
+            conn,
+            ctrl,
+            req,
+            keep: vec![
+                Box::new(s),
+                Box::new(peer_ctrl),
+                Box::new(keep_send),
+                Box::new(keep_recv),
+            ],
+        }
+    }
+
+    /// Opens a WebTransport uni stream for session 0 carrying `payload`; FIN when `fin`.
+    async fn wt_uni(&mut self, payload: &[u8], fin: bool) -> Result<(), String> {
+        let conn = self.conn.clone();
+        let mut s = raw_open_uni(&conn).await?;
+        let mut b = wire::wt_uni_preamble(0);
+        b.extend_from_slice(payload);
+        raw::write_pieces(&mut s, &[b], 0).await?;
+        if fin {
+            let _ = s.finish();
+        }
+        self.keep.push(Box::new(s));
+        Ok(())
+    }
+
+    /// Opens a WebTransport bidi stream for session 0 carrying `payload` (left open).
+    async fn wt_bi(&mut self, payload: &[u8]) -> Result<(), String> {
+        let conn = self.conn.clone();
+        let (mut s, r) = raw_open_bi(&conn).await?;
+        let mut b = wire::wt_bi_preamble(0);
+        b.extend_from_slice(payload);
+        raw::write_pieces(&mut s, &[b], 0).await?;
+        self.keep.push(Box::new(s));
+        self.keep.push(Box::new(r));
+        Ok(())
+    }
+}
+
+async fn raw_open_uni(conn: &quinn::Connection) -> Result<quinn::SendStream, String> {
+    match bounded(conn.open_uni()).await {
+        None => Err("open_uni:timeout".into()),
+        Some(Err(e)) => Err(format!("open_uni:{}", canon::quinn_conn_err(&e))),
+        Some(Ok(s)) => Ok(s),
+    }
+}
+
+async fn raw_open_bi(conn: &quinn::Connection) -> Result<BiStream, String> {
+    match bounded(conn.open_bi()).await {
+        None => Err("open_bi:timeout".into()),
+        Some(Err(e)) => Err(format!("open_bi:{}", canon::quinn_conn_err(&e))),
+        Some(Ok(s)) => Ok(s),
+    }
+}
+
+enum RealEp {
+    Server(Arc<ServerEp>),
+    Client(Arc<ClientEp>),
+}
+
+impl RealEp {
+    fn open_connections(&self) -> usize {
+        match self {
+            RealEp::Server(e) => e.open_connections(),
+            RealEp::Client(e) => e.open_connections(),
+        }
+    }
+}
+
+/// Real endpoint `side` with one established session against a raw peer.
+struct Est {
+    rt: TestRt,
+    ep: RealEp,
+    conn: Connection,
+    peer: Peer,
+}
+
+async fn establish(rt_kind: &str, side: &str) -> Result<Est, String> {
+    let rt = TestRt::new(rt_kind)?;
+    if side == "client" {
+        let server = RawServer::bind(&RawOpts::default()).map_err(|e| format!("raw:{e}"))?;
+        let cep = endpoints::client(&rt).await?;
+        let url = server.url();
+        let cep2 = cep.clone();
+        let app = rt.spawn(async move { endpoints::connect(&cep2, url).await });
+        let raw_side = async {
+            let mut sc = server.accept().await?;
+            sc.establish().await?;
+            Ok::<_, String>(sc)
+        };
+        let sc = match raw_side.await {
+            Ok(sc) => sc,
+            Err(e) => {
+                app.abort();
+                return Err(format!("raw:{e}"));
+            }
+        };
+        let conn = joined(app).await?.map_err(|e| format!("connect:{e}"))?;
+        Ok(Est {
+            rt,
+            ep: RealEp::Client(cep),
+            conn,
+            peer: Peer::of_server(server, sc),
+        })
+    } else {
+        let (sep, port) = endpoints::server(&rt).await?;
+        let sep2 = sep.clone();
+        let app = rt.spawn(async move { accept_session(&sep2).await });
+        let client = match RawClient::session(port, &RawOpts::default()).await {
+            Ok(c) => c,
+            Err(e) => {
+                app.abort();
+                return Err(format!("raw:{e}"));
+            }
+        };
+        let conn = joined(app).await?.map_err(|e| format!("accept:{e}"))?;
+        Ok(Est {
+            rt,
+            ep: RealEp::Server(sep),
+            conn,
+            peer: Peer::of_client(client),
+        })
+    }
+}
+
+/// CLOSE_WEBTRANSPORT_SESSION capsule with an arbitrary payload, inside one DATA frame.
+fn close_capsule_frame(capsule_payload: &[u8]) -> Vec<u8> {
+    let mut c = wire::varint(0x2843);
+    wire::put_varint(&mut c, capsule_payload.len() as u64);
+    c.extend_from_slice(capsule_payload);
+    wire::frame(wire::FRAME_DATA, &c)
+}
+
+fn close_capsule(code: u32, reason: &[u8]) -> Vec<u8> {
+    let mut p = code.to_be_bytes().to_vec();
+    p.extend_from_slice(reason);
+    close_capsule_frame(&p)
+}
+
+fn conn_res<T>(r: Option<Result<T, wtransport::error::ConnectionError>>) -> String {
+    match r {
+        None => "timeout".into(),
+        Some(Ok(_)) => "ok".into(),
+        Some(Err(e)) => canon::conn_err(&e),
+    }
+}
+
+async fn app_open_uni(conn: &Connection) -> (String, Option<SendStream>) {
+    match bounded(conn.open_uni()).await {
+        None => ("timeout".into(), None),
+        Some(Err(e)) => (canon::conn_err(&e), None),
+        Some(Ok(o)) => match bounded(o).await {
+            None => ("timeout".into(), None),
+            Some(Err(e)) => (canon::opening_err(&e), None),
+            Some(Ok(s)) => ("ok".into(), Some(s)),
+        },
+    }
+}
+
+async fn app_open_bi(conn: &Connection) -> (String, Option<(SendStream, RecvStream)>) {
+    match bounded(conn.open_bi()).await {
+        None => ("timeout".into(), None),
+        Some(Err(e)) => (canon::conn_err(&e), None),
+        Some(Ok(o)) => match bounded(o).await {
+            None => ("timeout".into(), None),
+            Some(Err(e)) => (canon::opening_err(&e), None),
+            Some(Ok(s)) => ("ok".into(), Some(s)),
+        },
+    }
+}
+
+/// A task's value, or `timeout` / `trap:…`; the task is aborted when it does not answer.
+async fn task_value(h: tokio::task::JoinHandle<String>, bound_ms: u64) -> String {
+    let mut h = h;
+    match tokio::time::timeout(ms(bound_ms), &mut h).await {
+        Ok(Ok(v)) => v,
+        Ok(Err(e)) => {
+            if e.is_panic() {
+                format!(
+                    "trap:{}",
+                    wtverif_harness::e2e_lib::rt::panic_msg(e.into_panic())
+                )
+            } else {
+                "trap:cancelled".into()
+            }
+        }
+        Err(_) => {
+            h.abort();
+            "timeout".into()
+        }
+    }
+}
+
+// ---------------------------------------------------------------------------------------------
+// term  rt side style code reasonhex when
+
+/// Streams of the `streams` case: peer-opened, accepted by the application and held open.
+struct Held {
+    uni: RecvStream,
+    bi: (SendStream, RecvStream),
+}
+
+fn spawn_waiters(rt: &TestRt, conn: &Connection) -> Vec<tokio::task::JoinHandle<String>> {
+    let (c1, c2, c3) = (conn.clone(), conn.clone(), conn.clone());
+    vec![
+        rt.spawn(async move { conn_res(bounded(c1.accept_uni()).await) }),
+        rt.spawn(async move { conn_res(bounded(c2.accept_bi()).await) }),
+        rt.spawn(async move { conn_res(bounded(c3.receive_datagram()).await) }),
+    ]
+}
+
+const TERM_FIELDS: [&str; 10] = [
+    "accept_uni",
+    "accept_bi",
+    "recv_dgram",
+    "later_accept_uni",
+    "later_open_uni",
+    "later_open_bi",
+    "closed",
+    "held_read",
+    "held_write",
+    "peer_close",
+];
+
+fn term_fail(e: String) -> Vec<String> {
+    let mut v: Vec<String> = TERM_FIELDS.iter().map(|f| format!("{f}=-")).collect();
+    v.push(format!("err={e}"));
+    v
+}
+
+async fn term(a: &[String]) -> Vec<String> {
+    let side = arg(a, 1).to_string();
+    let style = arg(a, 2).to_string();
+    let code = arg(a, 3).parse::<u64>().unwrap_or(0);
+    let reason = unhex_lenient(arg(a, 4));
+    let when = arg(a, 5).to_string();
+
+    let Est {
+        rt,
+        ep,
+        conn,
+        mut peer,
+    } = match establish(arg(a, 0), &side).await {
+        Ok(e) => e,
+        Err(e) => return term_fail(e),
+    };
+    let mut errs: Vec<String> = vec![];
+
+    // `streams`: one uni and one bidi stream of the peer, accepted and held open
+    let mut held: Option<Held> = None;
+    if when == "streams" {
+        let opened = async {
+            peer.wt_uni(b"u", false).await?;
+            peer.wt_bi(b"b").await
+        };
+        if let Err(e) = opened.await {
+            return term_fail(format!("raw:{e}"));
+        }
+        let c = conn.clone();
+        let r = rt
+            .run(async move {
+                let mut uni = match bounded(c.accept_uni()).await {
+                    None => return Err("held_accept_uni:timeout".to_string()),
+                    Some(Err(e)) => return Err(format!("held_accept_uni:{}", canon::conn_err(&e))),
+                    Some(Ok(s)) => s,
+                };
+                let mut bi = match bounded(c.accept_bi()).await {
+                    None => return Err("held_accept_bi:timeout".to_string()),
+                    Some(Err(e)) => return Err(format!("held_accept_bi:{}", canon::conn_err(&e))),
+                    Some(Ok(s)) => s,
+                };
+                let mut b = [0u8; 1];
+                match bounded(uni.read(&mut b)).await {
+                    Some(Ok(Some(1))) if b[0] == b'u' => {}
+                    _ => return Err("held_uni_first_byte".to_string()),
+                }
+                match bounded(bi.1.read(&mut b)).await {
+                    Some(Ok(Some(1))) if b[0] == b'b' => {}
+                    _ => return Err("held_bi_first_byte".to_string()),
+                }
+                Ok(Held { uni, bi })
+            })
+            .await;
+        match r {
+            Ok(Ok(h)) => held = Some(h),
+            Ok(Err(e)) | Err(e) => return term_fail(e),
+        }
+    }
+
+    // pending calls
+    let mut waiters: Option<Vec<tokio::task::JoinHandle<String>>> = None;
+    if when != "idle" {
+        waiters = Some(spawn_waiters(&rt, &conn));
+        tokio::time::sleep(ms(100)).await;
+    }
+
+    // what the raw peer sees, counted from the termination
+    let raw_conn = peer.conn.clone();
+    let peer_close_task = tokio::spawn(async move { canon::peer_close(&raw_conn, 2000).await });
+
+    // the termination
+    let mut conn = Some(conn);
+    let mut dropped_all = false;
+    match style.as_str() {
+        "capsule" | "capsule_fin" | "capsule_short" | "capsule_long" | "capsule_bad_utf8"
+        | "fin" | "reset" | "fin_mid_frame" => {
+            let bytes: Vec<u8> = match style.as_str() {
+                "capsule" | "capsule_fin" => close_capsule(code as u32, &reason),
+                "capsule_short" => close_capsule_frame(&(code as u32).to_be_bytes()[..3]),
+                "capsule_long" => close_capsule(code as u32, &vec![0x61u8; 1025]),
+                "capsule_bad_utf8" => close_capsule(code as u32, &[0xff, 0xfe]),
+                "fin_mid_frame" => vec![0x00, 0x05],
+                _ => vec![],
+            };
+            match peer.req.as_mut() {
+                None => errs.push("raw:no_request_stream".into()),
+                Some((s, _)) => {
+                    if !bytes.is_empty() {
+                        if let Err(e) = raw::write_pieces(s, &[bytes], 0).await {
+                            errs.push(format!("raw:{e}"));
+                        }
+                    }
+                    match style.as_str() {
+                        "capsule_fin" | "fin" | "fin_mid_frame" => {
+                            let _ = s.finish();
+                        }
+                        "reset" => {
+                            let _ = s.reset(quinn::VarInt::from_u32(77));
+                        }
+                        _ => {}
+                    }
+                }
+            }
+        }
+        "quic_close" => match quinn::VarInt::from_u64(code) {
+            Ok(c) => peer.conn.close(c, &reason),
+            Err(_) => errs.push("bad_code".into()),
+        },
+        "ctrl_reset" | "ctrl_fin" => match peer.ctrl.as_mut() {
+            None => errs.push("raw:no_control_stream".into()),
+            Some(s) => {
+                if style == "ctrl_reset" {
+                    let _ = s.reset(quinn::VarInt::from_u32(77));
+                } else {
+                    let _ = s.finish();
+                }
+            }
+        },
+        "local_close" => match wtransport::VarInt::try_from_u64(code) {
+            Ok(c) => {
+                let cc = conn.clone().expect("still held");
+                let reason2 = reason.clone();
+                if let Err(t) = rt.run(async move { cc.close(c, &reason2) }).await {
+                    errs.push(t);
+                }
+            }
+            Err(_) => errs.push("bad_code".into()),
+        },
+        "drop_all" => {
+            // every pending call is cancelled (its future and its handle dropped), then the held
+            // streams and the connection itself go, all on the application's runtime
+            if let Some(ws) = waiters.take() {
+                for w in &ws {
+                    w.abort();
+                }
+                for w in ws {
+                    let _ = w.await;
+                }
+            }
+            let (h, c) = (held.take(), conn.take());
+            if let Err(t) = rt
+                .run(async move {
+                    drop(h);
+                    drop(c);
+                })
+                .await
+            {
+                errs.push(t);
+            }
+            dropped_all = true;
+        }
+        _ => errs.push("bad_style".into()),
+    }
+
+    let mut v: Vec<String> = vec!["-".to_string(); 9];
+    if !dropped_all {
+        let conn = conn.take().expect("still held");
+        if waiters.is_none() {
+            // idle: the calls are issued once the termination has happened
+            tokio::time::sleep(ms(200)).await;
+            waiters = Some(spawn_waiters(&rt, &conn));
+        }
+        for (i, w) in waiters.take().expect("set").into_iter().enumerate() {
+            v[i] = task_value(w, STEP_MS + 2000).await;
+        }
+        tokio::time::sleep(ms(100)).await;
+        let c = conn.clone();
+        let later = rt
+            .run(async move {
+                let au = conn_res(bounded(c.accept_uni()).await);
+                let (ou, s1) = app_open_uni(&c).await;
+                let (ob, s2) = app_open_bi(&c).await;
+                let cl = match bounded(c.closed()).await {
+                    None => "timeout".to_string(),
+                    Some(e) => canon::conn_err(&e),
+                };
+                drop((s1, s2));
+                (au, ou, ob, cl)
+            })
+            .await;
+        match later {
+            Ok((au, ou, ob, cl)) => {
+                v[3] = au;
+                v[4] = ou;
+                v[5] = ob;
+                v[6] = cl;
+            }
+            Err(t) => {
+                for x in v.iter_mut().take(7).skip(3) {
+                    *x = t.clone();
+                }
+            }
+        }
+        if let Some(mut h) = held.take() {
+            let r = rt
+                .run(async move {
+                    let mut b = [0u8; 16];
+                    let rd = match bounded(h.uni.read(&mut b)).await {
+                        None => "timeout".to_string(),
+                        Some(Ok(Some(_))) => "data".into(),
+                        Some(Ok(None)) => "eos".into(),
+                        Some(Err(e)) => canon::read_err(&e),
+                    };
+                    let wr = match bounded(h.bi.0.write(&[0x77])).await {
+                        None => "timeout".to_string(),
+                        Some(Ok(_)) => "ok".into(),
+                        Some(Err(e)) => canon::write_err(&e),
+                    };
+                    drop(h);
+                    (rd, wr)
+                })
+                .await;
+            match r {
+                Ok((rd, wr)) => {
+                    v[7] = rd;
+                    v[8] = wr;
+                }
+                Err(t) => {
+                    v[7] = t.clone();
+                    v[8] = t;
+                }
+            }
+        }
+        // the application's handle lives until the raw peer has finished observing
+        let pc = task_value(peer_close_task, 4000).await;
+        v.push(pc);
+        let _ = rt.run(async move { drop(conn) }).await;
+    } else {
+        let pc = task_value(peer_close_task, 4000).await;
+        v.push(pc);
+    }
+    let mut obs: Vec<String> = TERM_FIELDS
+        .iter()
+        .zip(v.iter())
+        .map(|(f, x)| format!("{f}={x}"))
+        .collect();
+    if !errs.is_empty() {
+        obs.push(format!("err={}", errs.join(",")));
+    }
+    drop(peer);
+    drop(ep);
+    drop(rt);
+    obs
+}
+
+// ---------------------------------------------------------------------------------------------
+// drop.handles  rt side clones
+
+async fn drop_handles(a: &[String]) -> Vec<String> {
+    let clones = arg_usize(a, 2).min(10_000);
+    let Est { rt, ep, conn, peer } = match establish(arg(a, 0), arg(a, 1)).await {
+        Ok(e) => e,
+        Err(e) => {
+            return vec![
+                "peer_close=-".to_string(),
+                "open_connections=-".into(),
+                format!("err={e}"),
+            ]
+        }
+    };
+    let raw_conn = peer.conn.clone();
+    let peer_close_task = tokio::spawn(async move { canon::peer_close(&raw_conn, 3000).await });
+    let mut errs = vec![];
+    if let Err(t) = rt
+        .run(async move {
+            let cs: Vec<Connection> = (0..clones).map(|_| conn.clone()).collect();
+            tokio::task::yield_now().await;
+            drop(cs);
+            drop(conn);
+        })
+        .await
+    {
+        errs.push(t);
+    }
+    tokio::time::sleep(ms(1000)).await;
+    let open = ep.open_connections();
+    let pc = task_value(peer_close_task, 5000).await;
+    let mut obs = vec![format!("peer_close={pc}"), format!("open_connections={open}")];
+    if !errs.is_empty() {
+        obs.push(format!("err={}", errs.join(",")));
+    }
+    drop(peer);
+    drop(ep);
+    drop(rt);
+    obs
+}
+
+// ---------------------------------------------------------------------------------------------
+// ctrl.cut  rt side target cut event
+
+const CUT_GAP_MS: u64 = 80;
+
+async fn raw_write(s: &mut quinn::SendStream, bytes: Vec<u8>) -> Result<(), String> {
+    raw::write_pieces(s, &[bytes], 0).await
+}
+
+/// The event injected between the two pieces of a cut target.
+async fn inject(
+    conn: &quinn::Connection,
+    keep: &mut Keep,
+    event: &str,
+    other: Option<&mut quinn::SendStream>,
+) -> Result<(), String> {
+    match event {
+        "datagram" => conn
+            .send_datagram(bytes::Bytes::from(wire::wt_datagram(0, &[0x78])))
+            .map_err(|e| format!("send_datagram:{}", wtverif_harness::e2e_lib::clean(&e.to_string()))),
+        "uni" => {
+            let mut s = match bounded(conn.open_uni()).await {
+                Some(Ok(s)) => s,
+                _ => return Err("event_open_uni".into()),
+            };
+            let mut b = wire::wt_uni_preamble(0);
+            b.push(0x78);
+            raw_write(&mut s, b).await?;
+            let _ = s.finish();
+            keep.push(Box::new(s));
+            Ok(())
+        }
+        "bi" => {
+            let (mut s, r) = match bounded(conn.open_bi()).await {
+                Some(Ok(s)) => s,
+                _ => return Err("event_open_bi".into()),
+            };
+            let mut b = wire::wt_bi_preamble(0);
+            b.push(0x78);
+            raw_write(&mut s, b).await?;
+            let _ = s.finish();
+            keep.push(Box::new(s));
+            keep.push(Box::new(r));
+            Ok(())
+        }
+        "ctrlframe" => match other {
+            Some(s) => raw_write(s, wire::grease_frame(&[0x01, 0x02, 0x03])).await,
+            None => Ok(()),
+        },
+        _ => Ok(()),
+    }
+}
+
+/// Writes `prefix ++ target` on `s`, `target` cut at `cut` with the event between the pieces.
+#[allow(clippy::too_many_arguments)]
+async fn write_cut(
+    s: &mut quinn::SendStream,
+    prefix: &[u8],
+    target: &[u8],
+    cut: usize,
+    conn: &quinn::Connection,
+    keep: &mut Keep,
+    event: &str,
+    other: Option<&mut quinn::SendStream>,
+) -> Result<(), String> {
+    let mut first = prefix.to_vec();
+    if cut == 0 || cut >= target.len() {
+        first.extend_from_slice(target);
+        return raw_write(s, first).await;
+    }
+    first.extend_from_slice(&target[..cut]);
+    raw_write(s, first).await?;
+    tokio::time::sleep(ms(CUT_GAP_MS)).await;
+    inject(conn, keep, event, other).await?;
+    tokio::time::sleep(ms(CUT_GAP_MS)).await;
+    raw_write(s, target[cut..].to_vec()).await
+}
+
+fn cut_obs(outcome: String, peer_close: String, len: usize, err: Option<String>) -> Vec<String> {
+    let mut v = vec![
+        format!("outcome={outcome}"),
+        format!("peer_close={peer_close}"),
+        format!("len={len}"),
+    ];
+    if let Some(e) = err {
+        v.push(format!("err={e}"));
+    }
+    v
+}
+
+/// Application side of the established-session targets: accepts uni streams, reading each to
+/// the end, until one carries `probe` (→ `alive`) or `accept_uni` fails (→ the error form).
+async fn accept_until(conn: &Connection, probe: &[u8]) -> String {
+    loop {
+        match conn.accept_uni().await {
+            Err(e) => return canon::conn_err(&e),
+            Ok(mut r) => {
+                let (data, _end) = crate::ops_data::wt_read_to_end(&mut r, 4096).await;
+                if !probe.is_empty() && data == probe {
+                    return "alive".into();
+                }
+            }
+        }
+    }
+}
+
+async fn ctrl_cut(a: &[String]) -> Vec<String> {
+    let side = arg(a, 1).to_string();
+    let target = arg(a, 2).to_string();
+    let cut = arg_usize(a, 3);
+    let event = arg(a, 4).to_string();
+    // payload bytes chosen so that a torn frame is re-read as SETTINGS / DATA frames (a visible
+    // protocol error) rather than as the start of some long unknown frame (silence)
+    let grease: Vec<u8> = wire::grease_frame(&[0x04, 0x00, 0x00, 0x04, 0x00]);
+    let bytes: Vec<u8> = match target.as_str() {
+        "settings" => wire::std_control_bytes(),
+        "request" => wire::std_request_frame(),
+        "response" => wire::headers_frame(&[(":status", "200")]),
+        "grease_ctrl" | "grease_sess" => grease.clone(),
+        "capsule" => close_capsule(0x0102_0304, b"bye"),
+        _ => return cut_obs("-".into(), "-".into(), 0, Some("bad_target".into())),
+    };
+    let len = bytes.len();
+    let fail = |e: String| cut_obs("-".into(), "-".into(), len, Some(e));
+    let meaningful = match target.as_str() {
+        "request" => side == "server",
+        "response" => side == "client",
+        _ => true,
+    };
+    if !meaningful {
+        return fail("bad_side".into());
+    }
+
+    // ---- targets on an established session
+    if target == "grease_sess" || target == "capsule" {
+        let Est {
+            rt,
+            ep,
+            conn,
+            mut peer,
+        } = match establish(arg(a, 0), &side).await {
+            Ok(e) => e,
+            Err(e) => return fail(e),
+        };
+        let Some((mut req_send, req_recv)) = peer.req.take() else {
+            return fail("raw:no_request_stream".into());
+        };
+        let mut ctrl = peer.ctrl.take();
+        let mut app: Option<tokio::task::JoinHandle<String>> = None;
+        if target == "capsule" {
+            let c = conn.clone();
+            app = Some(rt.spawn(async move { accept_until(&c, b"").await }));
+        }
+        let raw_conn = peer.conn.clone();
+        let mut err = write_cut(
+            &mut req_send,
+            &[],
+            &bytes,
+            cut,
+            &raw_conn,
+            &mut peer.keep,
+            &event,
+            ctrl.as_mut(),
+        )
+        .await
+        .err()
+        .map(|e| format!("raw:{e}"));
+        if target == "grease_sess" {
+            tokio::time::sleep(ms(500)).await;
+            let c = conn.clone();
+            app = Some(rt.spawn(async move { accept_until(&c, b"probe").await }));
+            if let Err(e) = peer.wt_uni(b"probe", true).await {
+                // a connection the endpoint closed is reported through `outcome`
+                err = err.or(Some(format!("raw:{e}")));
+            }
+        }
+        let outcome = task_value(app.take().expect("set"), 3000).await;
+        if outcome != "alive" && outcome != "timeout" && target == "grease_sess" {
+            // the probe could not be sent because the endpoint had closed the connection
+            err = None;
+        }
+        let pc = canon::peer_close(&peer.conn, 1000).await;
+        let _ = rt.run(async move { drop(conn) }).await;
+        drop((req_send, req_recv, ctrl));
+        drop(peer);
+        drop(ep);
+        drop(rt);
+        return cut_obs(outcome, pc, len, err);
+    }
+
+    // ---- targets of the session setup
+    let rt = match TestRt::new(arg(a, 0)) {
+        Ok(rt) => rt,
+        Err(e) => return fail(e),
+    };
+    let std_ctrl = wire::std_control_bytes();
+    if side == "client" {
+        let server = match RawServer::bind(&RawOpts::default()) {
+            Ok(s) => s,
+            Err(e) => return fail(format!("raw:{e}")),
+        };
+        let cep = match endpoints::client(&rt).await {
+            Ok(c) => c,
+            Err(e) => return fail(e),
+        };
+        let url = server.url();
+        let cep2 = cep.clone();
+        // the connection (if any) stays inside the task's result until the end
+        let app = rt.spawn(async move { endpoints::connect(&cep2, url).await });
+        let mut keep: Keep = vec![];
+        let mut raw_conn: Option<quinn::Connection> = None;
+        let raw_side = async {
+            let mut sc = server.accept().await?;
+            let conn = sc.conn.clone();
+            raw_conn = Some(conn.clone());
+            let mut ctrl = match bounded(conn.open_uni()).await {
+                Some(Ok(s)) => s,
+                _ => return Err("open_uni".to_string()),
+            };
+            let ok200 = wire::headers_frame(&[(":status", "200")]);
+            match target.as_str() {
+                "settings" => {
+                    write_cut(&mut ctrl, &[], &bytes, cut, &conn, &mut keep, &event, None).await?;
+                    sc.read_request(3000).await?;
+                    sc.respond(&ok200).await?;
+                }
+                "grease_ctrl" => {
+                    if event == "ctrlframe" && cut > 0 && cut < len {
+                        // the other critical stream is the client's request stream, which shows
+                        // up once the client has seen SETTINGS (complete in the first piece)
+                        let mut first = std_ctrl.clone();
+                        first.extend_from_slice(&bytes[..cut]);
+                        raw_write(&mut ctrl, first).await?;
+                        tokio::time::sleep(ms(CUT_GAP_MS)).await;
+                        sc.read_request(2000).await?;
+                        let other = sc.req.as_mut().map(|(s, _)| s);
+                        inject(&conn, &mut keep, &event, other).await?;
+                        tokio::time::sleep(ms(CUT_GAP_MS)).await;
+                        raw_write(&mut ctrl, bytes[cut..].to_vec()).await?;
+                    } else {
+                        write_cut(&mut ctrl, &std_ctrl, &bytes, cut, &conn, &mut keep, &event, None)
+                            .await?;
+                        sc.read_request(3000).await?;
+                    }
+                    sc.respond(&ok200).await?;
+                }
+                _ => {
+                    // response
+                    raw_write(&mut ctrl, std_ctrl.clone()).await?;
+                    sc.read_request(3000).await?;
+                    let Some((s, _)) = sc.req.as_mut() else {
+                        return Err("no_request".to_string());
+                    };
+                    write_cut(s, &[], &bytes, cut, &conn, &mut keep, &event, Some(&mut ctrl))
+                        .await?;
+                }
+            }
+            keep.push(Box::new(ctrl));
+            Ok::<_, String>(sc)
+        };
+        let raw_res = raw_side.await;
+        let mut app = app;
+        let (outcome, conn): (String, Option<Connection>) =
+            match tokio::time::timeout(ms(3000), &mut app).await {
+                Ok(Ok(Ok(c))) => ("established".into(), Some(c)),
+                Ok(Ok(Err(e))) => (e, None),
+                Ok(Err(_)) => ("trap".into(), None),
+                Err(_) => {
+                    app.abort();
+                    ("timeout".into(), None)
+                }
+            };
+        let pc = match &raw_conn {
+            Some(c) => canon::peer_close(c, 1000).await,
+            None => "-".to_string(),
+        };
+        let err = raw_res.as_ref().err().map(|e| format!("raw:{e}"));
+        // a raw side that failed because the endpoint gave up is explained by `outcome`
+        let err = if outcome != "established" && outcome != "timeout" { None } else { err };
+        let _ = rt.run(async move { drop(conn) }).await;
+        drop(raw_res);
+        drop(keep);
+        drop(cep);
+        drop(server);
+        drop(rt);
+        return cut_obs(outcome, pc, len, err);
+    }
+
+    // side = server
+    let (sep, port) = match endpoints::server(&rt).await {
+        Ok(x) => x,
+        Err(e) => return fail(e),
+    };
+    let sep2 = sep.clone();
+    let app = rt.spawn(async move { accept_session(&sep2).await });
+    let mut keep: Keep = vec![];
+    let mut raw_conn: Option<quinn::Connection> = None;
+    let raw_side = async {
+        let c = RawClient::connect(port, &RawOpts::default()).await?;
+        let conn = c.conn.clone();
+        raw_conn = Some(conn.clone());
+        let mut ctrl = c.open_uni().await?;
+        let (mut req_send, req_recv);
+        match target.as_str() {
+            "settings" | "grease_ctrl" => {
+                let prefix: &[u8] = if target == "settings" { &[] } else { &std_ctrl };
+                write_cut(&mut ctrl, prefix, &bytes, cut, &conn, &mut keep, &event, None).await?;
+                (req_send, req_recv) = c.open_bi().await?;
+                raw_write(&mut req_send, wire::std_request_frame()).await?;
+            }
+            _ => {
+                // request
+                raw_write(&mut ctrl, std_ctrl.clone()).await?;
+                (req_send, req_recv) = c.open_bi().await?;
+                write_cut(&mut req_send, &[], &bytes, cut, &conn, &mut keep, &event, Some(&mut ctrl))
+                    .await?;
+            }
+        }
+        keep.push(Box::new(ctrl));
+        keep.push(Box::new(req_send));
+        keep.push(Box::new(req_recv));
+        Ok::<_, String>(c)
+    };
+    let raw_res = raw_side.await;
+    let mut app = app;
+    let (outcome, conn): (String, Option<Connection>) =
+        match tokio::time::timeout(ms(3000), &mut app).await {
+            Ok(Ok(Ok(c))) => ("established".into(), Some(c)),
+            Ok(Ok(Err(e))) => (e, None),
+            Ok(Err(_)) => ("trap".into(), None),
+            Err(_) => {
+                app.abort();
+                ("timeout".into(), None)
+            }
+        };
+    let pc = match &raw_conn {
+        Some(c) => canon::peer_close(c, 1000).await,
+        None => "-".to_string(),
+    };
+    let err = raw_res.as_ref().err().map(|e| format!("raw:{e}"));
+    let err = if outcome != "established" && outcome != "timeout" { None } else { err };
+    let _ = rt.run(async move { drop(conn) }).await;
+    drop(raw_res);
+    drop(keep);
+    drop(sep);
+    drop(rt);
+    cut_obs(outcome, pc, len, err)
+}
+
+// ---------------------------------------------------------------------------------------------
+// rules  rt side script
+
+/// Pause after every script step that sends something, so that the endpoint sees the steps in
+/// script order even when they travel on different streams.
+const STEP_GAP_MS: u64 = 20;
+
+struct ScriptStream {
+    send: quinn::SendStream,
+    _recv: Option<quinn::RecvStream>,
+}
+
+struct ScriptState {
+    conn: quinn::Connection,
+    /// streams opened by the script, in opening order (`None`: could not be opened)
+    streams: Vec<Option<ScriptStream>>,
+    /// side=client: the client's request stream
+    resp: Option<BiStream>,
+    first_err: Option<String>,
+}
+
+impl ScriptState {
+    fn note(&mut self, e: String) {
+        if self.first_err.is_none() {
+            self.first_err = Some(e);
+        }
+    }
+
+    async fn open(&mut self, bidi: bool, bytes: Vec<u8>, fin: bool) {
+        let opened = if bidi {
+            match bounded_ms(2000, self.conn.open_bi()).await {
+                Some(Ok((s, r))) => Some(ScriptStream {
+                    send: s,
+                    _recv: Some(r),
+                }),
+                _ => None,
+            }
+        } else {
+            match bounded_ms(2000, self.conn.open_uni()).await {
+                Some(Ok(s)) => Some(ScriptStream {
+                    send: s,
+                    _recv: None,
+                }),
+                _ => None,
+            }
+        };
+        let Some(mut st) = opened else {
+            self.note(format!("open:{}", self.streams.len()));
+            self.streams.push(None);
+            return;
+        };
+        if let Err(e) = raw_write(&mut st.send, bytes).await {
+            self.note(format!("{}:{e}", self.streams.len()));
+        }
+        if fin {
+            let _ = st.send.finish();
+        }
+        self.streams.push(Some(st));
+    }
+
+    async fn step(&mut self, step: &str) {
+        let mut it = step.splitn(3, ':');
+        let name = it.next().unwrap_or("");
+        let a1 = it.next().unwrap_or("");
+        let a2 = it.next().unwrap_or("");
+        match name {
+            "wait" => {
+                tokio::time::sleep(ms(a1.parse::<u64>().unwrap_or(0).min(10_000))).await;
+                return;
+            }
+            "ctrl" | "uni" => self.open(false, unhex_lenient(a1), false).await,
+            "unifin" => self.open(false, unhex_lenient(a1), true).await,
+            "req" => self.open(true, unhex_lenient(a1), false).await,
+            "reqfin" => self.open(true, unhex_lenient(a1), true).await,
+            "std_settings" => self.open(false, wire::std_control_bytes(), false).await,
+            "std_request" => self.open(true, wire::std_request_frame(), false).await,
+            "more" | "fin" | "reset" => {
+                let n = a1.parse::<usize>().unwrap_or(usize::MAX);
+                match self.streams.get_mut(n).and_then(|s| s.as_mut()) {
+                    None => self.note(format!("no_stream:{a1}")),
+                    Some(st) => match name {
+                        "more" => {
+                            if let Err(e) = raw_write(&mut st.send, unhex_lenient(a2)).await {
+                                self.note(format!("{n}:{e}"));
+                            }
+                        }
+                        "fin" => {
+                            let _ = st.send.finish();
+                        }
+                        _ => {
+                            let code = a2.parse::<u64>().unwrap_or(0);
+                            let code = quinn::VarInt::from_u64(code).unwrap_or(quinn::VarInt::MAX);
+                            let _ = st.send.reset(code);
+                        }
+                    },
+                }
+            }
+            "dgram" => {
+                if let Err(e) = self
+                    .conn
+                    .send_datagram(bytes::Bytes::from(unhex_lenient(a1)))
+                {
+                    self.note(format!(
+                        "dgram:{}",
+                        wtverif_harness::e2e_lib::clean(&e.to_string())
+                    ));
+                }
+            }
+            "resp" => {
+                if self.resp.is_none() {
+                    match bounded_ms(2000, self.conn.accept_bi()).await {
+                        Some(Ok(s)) => self.resp = Some(s),
+                        _ => self.note("resp:no_request_stream".into()),
+                    }
+                }
+                if let Some((s, _)) = self.resp.as_mut() {
+                    if let Err(e) = raw_write(s, unhex_lenient(a1)).await {
+                        self.note(format!("resp:{e}"));
+                    }
+                }
+            }
+            _ => {
+                self.note(format!("bad_step:{}", wtverif_harness::e2e_lib::clean(name)));
+                return;
+            }
+        }
+        tokio::time::sleep(ms(STEP_GAP_MS)).await;
+    }
+}
+
+async fn rules(a: &[String]) -> Vec<String> {
+    let side = arg(a, 1).to_string();
+    let script: Vec<String> = arg(a, 2)
+        .split(';')
+        .filter(|s| !s.is_empty() && *s != "-")
+        .map(|s| s.to_string())
+        .collect();
+    let fail = |e: String| {
+        vec![
+            "peer_close=-".to_string(),
+            "streams=-".into(),
+            "app=-".into(),
+            format!("err={e}"),
+        ]
+    };
+    let rt = match TestRt::new(arg(a, 0)) {
+        Ok(rt) => rt,
+        Err(e) => return fail(e),
+    };
+    // what the application has seen so far; the task then holds what it got until told to stop
+    let status: Arc<Mutex<Option<String>>> = Arc::new(Mutex::new(None));
+    let set = |st: &Arc<Mutex<Option<String>>>, v: String| {
+        *st.lock().unwrap_or_else(|p| p.into_inner()) = Some(v);
+    };
+    let (stop_tx, stop_rx) = tokio::sync::oneshot::channel::<()>();
+    let mut keep: Keep = vec![];
+    let app;
+    let conn: quinn::Connection;
+    if side == "client" {
+        let server = match RawServer::bind(&RawOpts::default()) {
+            Ok(s) => s,
+            Err(e) => return fail(format!("raw:{e}")),
+        };
+        let cep = match endpoints::client(&rt).await {
+            Ok(c) => c,
+            Err(e) => return fail(e),
+        };
+        let url = server.url();
+        let (cep2, st) = (cep.clone(), status.clone());
+        app = rt.spawn(async move {
+            // no 10 s bound here: a script that never answers leaves connect() pending
+            let held = match tokio::time::timeout(ms(60_000), cep2.connect(url)).await {
+                Err(_) => None,
+                Ok(Ok(c)) => {
+                    set(&st, "session".into());
+                    Some(c)
+                }
+                Ok(Err(e)) => {
+                    set(&st, canon::connecting_err(&e));
+                    None
+                }
+            };
+            let _ = stop_rx.await;
+            drop(held);
+        });
+        let sc = match server.accept().await {
+            Ok(sc) => sc,
+            Err(e) => {
+                app.abort();
+                return fail(format!("raw:{e}"));
+            }
+        };
+        conn = sc.conn.clone();
+        keep.push(Box::new(sc));
+        keep.push(Box::new(server));
+        keep.push(Box::new(cep));
+    } else {
+        let (sep, port) = match endpoints::server(&rt).await {
+            Ok(x) => x,
+            Err(e) => return fail(e),
+        };
+        let (sep2, st) = (sep.clone(), status.clone());
+        app = rt.spawn(async move {
+            let mut held: Keep = vec![];
+            match endpoints::next_request(&sep2, 60_000).await {
+                endpoints::Incoming::Timeout => {}
+                endpoints::Incoming::Error(e) => set(&st, canon::conn_err(&e)),
+                endpoints::Incoming::Request(r) => {
+                    set(&st, "session".into());
+                    if let Some(Ok(c)) = bounded(r.accept()).await {
+                        held.push(Box::new(c));
+                    }
+                }
+            }
+            let _ = stop_rx.await;
+            drop(held);
+        });
+        let c = match RawClient::connect(port, &RawOpts::default()).await {
+            Ok(c) => c,
+            Err(e) => {
+                app.abort();
+                return fail(format!("raw:{e}"));
+            }
+        };
+        conn = c.conn.clone();
+        keep.push(Box::new(c));
+        keep.push(Box::new(sep));
+    }
+
+    let mut st = ScriptState {
+        conn: conn.clone(),
+        streams: vec![],
+        resp: None,
+        first_err: None,
+    };
+    for step in &script {
+        st.step(step).await;
+    }
+    tokio::time::sleep(ms(700)).await;
+
+    let peer_close = canon::peer_close(&conn, 1).await;
+    let mut streams: Vec<String> = vec![];
+    for (i, s) in st.streams.iter_mut().enumerate() {
+        let v = match s {
+            None => "lost".to_string(),
+            Some(s) => canon::raw_stopped(&mut s.send, 20).await,
+        };
+        streams.push(format!("{i}:{v}"));
+    }
+    let app_v = status
+        .lock()
+        .unwrap_or_else(|p| p.into_inner())
+        .clone()
+        .unwrap_or_else(|| "none".to_string());
+    let _ = stop_tx.send(());
+    let mut app = app;
+    let mut trap = None;
+    match tokio::time::timeout(ms(2000), &mut app).await {
+        Ok(Ok(())) => {}
+        Ok(Err(e)) if e.is_panic() => {
+            trap = Some(format!(
+                "trap:{}",
+                wtverif_harness::e2e_lib::rt::panic_msg(e.into_panic())
+            ))
+        }
+        Ok(Err(_)) => {}
+        Err(_) => app.abort(),
+    }
+    let mut obs = vec![
+        format!("peer_close={peer_close}"),
+        format!(
+            "streams={}",
+            if streams.is_empty() { "-".to_string() } else { streams.join(",") }
+        ),
+        format!("app={}", trap.unwrap_or(app_v)),
+    ];
+    // failures of the raw side are a consequence of the endpoint's reaction once it closed
+    if let Some(e) = st.first_err.take() {
+        if peer_close == "alive" {
+            obs.push(format!("err=raw:{e}"));
+        }
+    }
+    drop(st);
+    drop(keep);
+    drop(rt);
+    obs
+}
+
+// ---------------------------------------------------------------------------------------------
+// wire.record  rt side scenario
+
+type Recorded = Arc<Mutex<Vec<(u64, Vec<u8>)>>>;
+
+fn lock<T>(m: &Mutex<T>) -> std::sync::MutexGuard<'_, T> {
+    m.lock().unwrap_or_else(|p| p.into_inner())
+}
+
+/// Reads `r` until it ends, appending to the entry `slot` of `rec`.
+async fn record_stream(mut r: quinn::RecvStream, rec: Recorded, slot: usize) {
+    let mut buf = vec![0u8; 4096];
+    while let Ok(Some(n)) = r.read(&mut buf).await {
+        lock(&rec)[slot].1.extend_from_slice(&buf[..n]);
+    }
+}
+
+/// Accepts every uni stream the endpoint opens and records its bytes (keyed by stream index).
+fn record_unis(conn: quinn::Connection, rec: Recorded) -> tokio::task::JoinHandle<()> {
+    tokio::spawn(async move {
+        let mut readers = vec![];
+        while let Ok(r) = conn.accept_uni().await {
+            let slot = {
+                let mut g = lock(&rec);
+                g.push((r.id().index(), vec![]));
+                g.len() - 1
+            };
+            readers.push(tokio::spawn(record_stream(r, rec.clone(), slot)));
+        }
+        for r in readers {
+            let _ = r.await;
+        }
+    })
+}
+
+/// Same for bidi streams; the send halves are kept open.
+fn record_bis(conn: quinn::Connection, rec: Recorded) -> tokio::task::JoinHandle<()> {
+    tokio::spawn(async move {
+        let mut readers = vec![];
+        let mut sends = vec![];
+        while let Ok((s, r)) = conn.accept_bi().await {
+            sends.push(s);
+            let slot = {
+                let mut g = lock(&rec);
+                g.push((r.id().index(), vec![]));
+                g.len() - 1
+            };
+            readers.push(tokio::spawn(record_stream(r, rec.clone(), slot)));
+        }
+        for r in readers {
+            let _ = r.await;
+        }
+    })
+}
+
+fn record_dgrams(conn: quinn::Connection, rec: Arc<Mutex<Vec<Vec<u8>>>>) -> tokio::task::JoinHandle<()> {
+    tokio::spawn(async move {
+        while let Ok(d) = conn.read_datagram().await {
+            lock(&rec).push(d.to_vec());
+        }
+    })
+}
+
+/// What the application of the endpoint does with its connection in a scenario.
+async fn scenario_app(conn: &Connection, scenario: &str, keep: &mut Keep) -> Option<String> {
+    match scenario {
+        "streams" => {
+            let (u, s) = app_open_uni(conn).await;
+            let Some(mut s) = s else {
+                return Some(format!("open_uni:{u}"));
+            };
+            if bounded(s.write_all(&[1, 2, 3])).await.and_then(|r| r.ok()).is_none() {
+                return Some("uni_write".into());
+            }
+            let f1 = bounded(s.finish()).await;
+            let (b, bi) = app_open_bi(conn).await;
+            let Some((mut bs, br)) = bi else {
+                return Some(format!("open_bi:{b}"));
+            };
+            if bounded(bs.write_all(&[1, 2, 3])).await.and_then(|r| r.ok()).is_none() {
+                return Some("bi_write".into());
+            }
+            let f2 = bounded(bs.finish()).await;
+            keep.push(Box::new(s));
+            keep.push(Box::new(bs));
+            keep.push(Box::new(br));
+            if !matches!(f1, Some(Ok(()))) || !matches!(f2, Some(Ok(()))) {
+                return Some("finish".into());
+            }
+            None
+        }
+        "dgram" => {
+            for d in [&[0xaau8][..], &[0xbb, 0xcc][..]] {
+                if let Err(e) = conn.send_datagram(d) {
+                    return Some(format!("send_datagram:{}", canon::send_dgram_err(&e)));
+                }
+                tokio::time::sleep(ms(20)).await;
+            }
+            None
+        }
+        _ => None,
+    }
+}
+
+async fn wire_record(a: &[String]) -> Vec<String> {
+    let side = arg(a, 1).to_string();
+    let scenario = arg(a, 2).to_string();
+    let fail = |e: String| {
+        vec![
+            "ctrl=-".to_string(),
+            "other_uni=-".into(),
+            "msg=-".into(),
+            "uni=-".into(),
+            "bi=-".into(),
+            "dgrams=-".into(),
+            "sid=-".into(),
+            format!("err={e}"),
+        ]
+    };
+    let rt = match TestRt::new(arg(a, 0)) {
+        Ok(rt) => rt,
+        Err(e) => return fail(e),
+    };
+    let unis: Recorded = Arc::new(Mutex::new(vec![]));
+    let bis: Recorded = Arc::new(Mutex::new(vec![]));
+    let dgrams: Arc<Mutex<Vec<Vec<u8>>>> = Arc::new(Mutex::new(vec![]));
+    // the endpoint's request (client) or response (server) bytes
+    let msg: Recorded = Arc::new(Mutex::new(vec![(0, vec![])]));
+    let reject = scenario == "connect_reject";
+    let mut errs: Vec<String> = vec![];
+    let mut keep: Keep = vec![];
+    let mut tasks = vec![];
+    let sid;
+
+    if side == "client" {
+        let server = match RawServer::bind(&RawOpts::default()) {
+            Ok(s) => s,
+            Err(e) => return fail(format!("raw:{e}")),
+        };
+        let cep = match endpoints::client(&rt).await {
+            Ok(c) => c,
+            Err(e) => return fail(e),
+        };
+        let url = server.url();
+        let (cep2, sc2) = (cep.clone(), scenario.clone());
+        let app = rt.spawn(async move {
+            let mut keep: Keep = vec![];
+            match endpoints::connect(&cep2, url).await {
+                Ok(conn) => {
+                    let sid = conn.session_id().into_u64().to_string();
+                    let e = scenario_app(&conn, &sc2, &mut keep).await;
+                    keep.push(Box::new(conn));
+                    (sid, e, keep)
+                }
+                Err(e) => ("-".to_string(), Some(format!("connect:{e}")), keep),
+            }
+        });
+        let mut sc = match server.accept().await {
+            Ok(sc) => sc,
+            Err(e) => {
+                app.abort();
+                return fail(format!("raw:{e}"));
+            }
+        };
+        tasks.push(record_unis(sc.conn.clone(), unis.clone()));
+        tasks.push(record_dgrams(sc.conn.clone(), dgrams.clone()));
+        let status = if reject { "404" } else { "200" };
+        let raw_side = async {
+            sc.open_control(&wire::std_settings_frame()).await?;
+            let req = sc.read_request(STEP_MS).await?;
+            lock(&msg)[0].1 = req;
+            sc.respond(&wire::headers_frame(&[(":status", status)])).await?;
+            if reject {
+                if let Some((s, _)) = sc.req.as_mut() {
+                    let _ = s.finish();
+                }
+            }
+            Ok::<_, String>(())
+        };
+        if let Err(e) = raw_side.await {
+            errs.push(format!("raw:{e}"));
+        }
+        // whatever else the client sends on its request stream, and its other bidi streams
+        if let Some((s, r)) = sc.req.take() {
+            keep.push(Box::new(s));
+            tasks.push(tokio::spawn(record_stream(r, msg.clone(), 0)));
+        }
+        tasks.push(record_bis(sc.conn.clone(), bis.clone()));
+        let (s, e, k) = match joined(app).await {
+            Ok(v) => v,
+            Err(t) => ("-".to_string(), Some(t), vec![]),
+        };
+        sid = s;
+        if let Some(e) = e {
+            if !(reject && e == "connect:rejected") {
+                errs.push(e);
+            }
+        }
+        tokio::time::sleep(ms(700)).await;
+        keep.push(Box::new(k));
+        keep.push(Box::new(sc));
+        keep.push(Box::new(server));
+        keep.push(Box::new(cep));
+    } else {
+        let (sep, port) = match endpoints::server(&rt).await {
+            Ok(x) => x,
+            Err(e) => return fail(e),
+        };
+        let (sep2, sc2) = (sep.clone(), scenario.clone());
+        let app = rt.spawn(async move {
+            let mut keep: Keep = vec![];
+            let req = match endpoints::next_request(&sep2, STEP_MS).await {
+                endpoints::Incoming::Request(r) => r,
+                endpoints::Incoming::Error(e) => {
+                    return ("-".to_string(), Some(format!("accept:{}", canon::conn_err(&e))), keep)
+                }
+                endpoints::Incoming::Timeout => {
+                    return ("-".to_string(), Some("accept:timeout".to_string()), keep)
+                }
+            };
+            if sc2 == "connect_reject" {
+                let e = bounded(req.not_found()).await.is_none().then(|| "reject:timeout".to_string());
+                return ("-".to_string(), e, keep);
+            }
+            match bounded(req.accept()).await {
+                None => ("-".to_string(), Some("accept:timeout".to_string()), keep),
+                Some(Err(e)) => ("-".to_string(), Some(format!("accept:{}", canon::conn_err(&e))), keep),
+                Some(Ok(conn)) => {
+                    let sid = conn.session_id().into_u64().to_string();
+                    let e = scenario_app(&conn, &sc2, &mut keep).await;
+                    keep.push(Box::new(conn));
+                    (sid, e, keep)
+                }
+            }
+        });
+        let mut c = match RawClient::connect(port, &RawOpts::default()).await {
+            Ok(c) => c,
+            Err(e) => {
+                app.abort();
+                return fail(format!("raw:{e}"));
+            }
+        };
+        tasks.push(record_unis(c.conn.clone(), unis.clone()));
+        tasks.push(record_bis(c.conn.clone(), bis.clone()));
+        tasks.push(record_dgrams(c.conn.clone(), dgrams.clone()));
+        let raw_side = async {
+            c.open_control(&wire::std_settings_frame()).await?;
+            c.send_request(&wire::std_request_frame()).await
+        };
+        if let Err(e) = raw_side.await {
+            errs.push(format!("raw:{e}"));
+        }
+        if let Some((s, r)) = c.req.take() {
+            keep.push(Box::new(s));
+            tasks.push(tokio::spawn(record_stream(r, msg.clone(), 0)));
+        }
+        let (s, e, k) = match joined(app).await {
+            Ok(v) => v,
+            Err(t) => ("-".to_string(), Some(t), vec![]),
+        };
+        sid = s;
+        if let Some(e) = e {
+            errs.push(e);
+        }
+        tokio::time::sleep(ms(700)).await;
+        keep.push(Box::new(k));
+        keep.push(Box::new(c));
+        keep.push(Box::new(sep));
+    }
+
+    for t in &tasks {
+        t.abort();
+    }
+    // classification by content: the first stream whose first byte is the control type is the
+    // control stream, WebTransport streams carry the scenario's data, the rest is counted
+    let mut u = lock(&unis).clone();
+    u.sort();
+    let mut ctrl: Option<Vec<u8>> = None;
+    let mut wt_uni: Vec<Vec<u8>> = vec![];
+    let mut other = 0usize;
+    for (_, b) in u {
+        if ctrl.is_none() && b.first() == Some(&0x00) {
+            ctrl = Some(b);
+        } else if b.starts_with(&[0x40, 0x54]) || b.first() == Some(&0x54) {
+            wt_uni.push(b);
+        } else {
+            other += 1;
+        }
+    }
+    let mut bv = lock(&bis).clone();
+    bv.sort();
+    let join = |v: Vec<Vec<u8>>| {
+        if v.is_empty() {
+            "-".to_string()
+        } else {
+            v.iter().map(|b| hex(b)).collect::<Vec<_>>().join(",")
+        }
+    };
+    let ctrl = ctrl.unwrap_or_default();
+    let mut obs = vec![
+        format!("ctrl={}", hex(&ctrl)),
+        format!("other_uni={other}"),
+        format!("msg={}", hex(&lock(&msg)[0].1)),
+        format!("uni={}", join(wt_uni)),
+        format!("bi={}", join(bv.into_iter().map(|(_, b)| b).collect())),
+        format!("dgrams={}", join(lock(&dgrams).clone())),
+        format!("sid={sid}"),
+        format!("ctrl_settings={}", settings_sorted(&ctrl)),
+    ];
+    if !errs.is_empty() {
+        obs.push(format!("err={}", errs.join(",")));
+    }
+    drop(keep);
+    drop(rt);
+    obs
+}
+
+/// The SETTINGS frame that follows the control stream's type byte, as sorted `id:value` pairs
+/// (the library emits its settings in hash-map order, so `ctrl=` differs from run to run; this
+/// field is the run-independent reading of the same bytes). `?` when it does not parse.
+fn settings_sorted(ctrl: &[u8]) -> String {
+    let Some(rest) = ctrl.get(1..) else {
+        return "?".into();
+    };
+    let Some((ty, payload, used)) = wire::parse_frame(rest) else {
+        return "?".into();
+    };
+    if ty != wire::FRAME_SETTINGS {
+        return "?".into();
+    }
+    let mut pairs = vec![];
+    let mut p = payload;
+    while !p.is_empty() {
+        let Some((k, a)) = wire::get_varint(p) else {
+            return "?".into();
+        };
+        let Some((v, b)) = wire::get_varint(&p[a..]) else {
+            return "?".into();
+        };
+        pairs.push((k, v));
+        p = &p[a + b..];
+    }
+    pairs.sort_unstable();
+    let mut s = pairs
+        .iter()
+        .map(|(k, v)| format!("{k}:{v}"))
+        .collect::<Vec<_>>()
+        .join(",");
+    if s.is_empty() {
+        s = "-".into();
+    }
+    if used + 1 != ctrl.len() {
+        s.push_str(&format!("+{}", hex(&ctrl[used + 1..])));
+    }
+    s
+}
+
+// ---------------------------------------------------------------------------------------------
+// generators
+
 pub fn generate(
-    _prop: &str,
-    _thorough: bool,
-    _rng: &mut Rng,
-    _emit: &mut dyn FnMut(&str, Vec<String>),
+    prop: &str,
+    thorough: bool,
+    rng: &mut Rng,
+    emit: &mut dyn FnMut(&str, Vec<String>),
 ) -> bool {
-    false
+    match prop {
+        "C04" => gen_c04(thorough, rng, emit),
+        "C05" => gen_c05(thorough, rng, emit),
+        "C09" => gen_c09(thorough, rng, emit),
+        "C12" => gen_c12(thorough, rng, emit),
+        "C13" => gen_c13(thorough, rng, emit),
+        "C16" => gen_c16(thorough, rng, emit),
+        _ => return false,
+    }
+    true
+}
+
+const RTS: [&str; 2] = ["mt", "ct"];
+const SIDES: [&str; 2] = ["server", "client"];
+
+fn s<T: ToString>(x: T) -> String {
+    x.to_string()
+}
+
+fn utf8_reason(rng: &mut Rng, thorough: bool) -> Vec<u8> {
+    if !thorough {
+        return "h\u{e9}llo w\u{f6}rld \u{2713} \u{65e5}\u{672c}\u{8a9e} \u{1f600}".as_bytes().to_vec();
+    }
+    const POOL: [&str; 10] = [
+        "a", "\u{e9}", "\u{df}", "\u{3b1}", "\u{2713}", "\u{65e5}", "\u{8a9e}", "\u{1f600}", " ",
+        "\u{10ffff}",
+    ];
+    let n = rng.range(1, 40);
+    let mut t = String::new();
+    for _ in 0..n {
+        let p: &&str = rng.pick(&POOL);
+        t.push_str(p);
+    }
+    t.into_bytes()
+}
+
+/// `[empty, "bye", 1024 bytes, multi-byte UTF-8]`
+fn reasons(rng: &mut Rng, thorough: bool) -> Vec<Vec<u8>> {
+    // 1024 bytes exactly; in thorough runs made of 2-byte characters half of the time
+    let long: Vec<u8> = if thorough && rng.chance(1, 2) {
+        "\u{e9}".repeat(512).into_bytes()
+    } else {
+        vec![b'r'; 1024]
+    };
+    vec![vec![], b"bye".to_vec(), long, utf8_reason(rng, thorough)]
+}
+
+fn codes_for(style: &str, rng: &mut Rng) -> Vec<u64> {
+    if style == "quic_close" || style == "local_close" {
+        vec![0, 1, (1 << 62) - 1, rng.varint62()]
+    } else {
+        vec![0, 1, u32::MAX as u64, rng.next() & 0xffff_ffff]
+    }
+}
+
+fn gen_c04(thorough: bool, rng: &mut Rng, emit: &mut dyn FnMut(&str, Vec<String>)) {
+    let full = ["capsule", "capsule_fin", "quic_close"];
+    let code_only = ["capsule_short", "capsule_long", "capsule_bad_utf8"];
+    let bare = ["fin", "reset", "fin_mid_frame"];
+    let whens = ["idle", "pending", "streams"];
+    let mut k = 0usize;
+    let term = |emit: &mut dyn FnMut(&str, Vec<String>),
+                    rt: &str,
+                    side: &str,
+                    style: &str,
+                    code: u64,
+                    reason: &[u8],
+                    when: &str| {
+        emit(
+            "term",
+            vec![s(rt), s(side), s(style), s(code), hex(reason), s(when)],
+        );
+    };
+    for side in SIDES {
+        for when in whens {
+            for style in full {
+                let codes = codes_for(style, rng);
+                let rs = reasons(rng, thorough);
+                if thorough {
+                    for (ci, code) in codes.iter().enumerate() {
+                        for (ri, r) in rs.iter().enumerate() {
+                            for rt in RTS {
+                                // the random code / reason differ between the two runtimes
+                                let code = if ci == 3 && rt == "ct" { codes_for(style, rng)[3] } else { *code };
+                                let r2;
+                                let r: &[u8] = if ri == 3 && rt == "ct" {
+                                    r2 = utf8_reason(rng, true);
+                                    &r2
+                                } else {
+                                    r
+                                };
+                                term(emit, rt, side, style, code, r, when);
+                            }
+                        }
+                    }
+                } else {
+                    // every code and every reason once, plus one random pairing
+                    for i in 0..4 {
+                        k += 1;
+                        term(emit, RTS[k % 2], side, style, codes[i], &rs[i], when);
+                    }
+                    k += 1;
+                    let (ci, ri) = (rng.below(4) as usize, rng.below(4) as usize);
+                    term(emit, RTS[k % 2], side, style, codes[ci], &rs[ri], when);
+                }
+            }
+            for style in code_only {
+                let codes = codes_for(style, rng);
+                if thorough {
+                    for code in codes {
+                        for rt in RTS {
+                            term(emit, rt, side, style, code, &[], when);
+                        }
+                    }
+                } else {
+                    k += 1;
+                    term(emit, RTS[k % 2], side, style, codes[k % 3], &[], when);
+                    k += 1;
+                    term(emit, RTS[k % 2], side, style, codes[3], &[], when);
+                }
+            }
+            for style in bare {
+                if thorough {
+                    for rt in RTS {
+                        term(emit, rt, side, style, 0, &[], when);
+                    }
+                } else {
+                    k += 1;
+                    term(emit, RTS[k % 2], side, style, 0, &[], when);
+                }
+            }
+        }
+    }
+}
+
+fn gen_c09(thorough: bool, rng: &mut Rng, emit: &mut dyn FnMut(&str, Vec<String>)) {
+    let styles = [
+        "drop_all",
+        "local_close",
+        "ctrl_reset",
+        "ctrl_fin",
+        "quic_close",
+        "capsule",
+        "fin",
+        "reset",
+    ];
+    let whens: &[&str] = if thorough { &["pending", "streams", "idle"] } else { &["pending", "streams"] };
+    let rounds = if thorough { 6 } else { 1 };
+    for round in 0..rounds {
+        for style in styles {
+            let uses_code = matches!(style, "local_close" | "quic_close" | "capsule");
+            if round > 0 && !uses_code && round > 2 {
+                // styles without parameters are repeated three times only
+                continue;
+            }
+            for when in whens {
+                for side in SIDES {
+                    for rt in RTS {
+                        let (code, reason): (u64, Vec<u8>) = if !uses_code {
+                            (0, vec![])
+                        } else {
+                            let codes = codes_for(style, rng);
+                            let code = if round == 0 { codes[3] } else { *rng.pick(&codes) };
+                            let rs = reasons(rng, thorough);
+                            let reason = if round == 0 { rs[1].clone() } else { rng.pick(&rs).clone() };
+                            (code, reason)
+                        };
+                        emit(
+                            "term",
+                            vec![s(rt), s(side), s(style), s(code), hex(&reason), s(when)],
+                        );
+                    }
+                }
+            }
+        }
+    }
+    let clones: &[usize] = if thorough { &[0, 1, 2, 3, 4, 8, 50, 1000] } else { &[0, 1, 3] };
+    let reps = if thorough { 4 } else { 1 };
+    for _ in 0..reps {
+        for c in clones {
+            for side in SIDES {
+                for rt in RTS {
+                    emit("drop.handles", vec![s(rt), s(side), s(c)]);
+                }
+            }
+        }
+    }
+}
+
+fn gen_c05(thorough: bool, _rng: &mut Rng, emit: &mut dyn FnMut(&str, Vec<String>)) {
+    // (target, length of its byte string, sides)
+    let targets: [(&str, usize, &[&str]); 6] = [
+        ("settings", wire::std_control_bytes().len(), &SIDES),
+        ("request", wire::std_request_frame().len(), &["server"]),
+        ("response", wire::headers_frame(&[(":status", "200")]).len(), &["client"]),
+        ("grease_ctrl", 7, &SIDES),
+        ("grease_sess", 7, &SIDES),
+        ("capsule", close_capsule(0x0102_0304, b"bye").len(), &SIDES),
+    ];
+    let events = ["none", "datagram", "uni", "bi", "ctrlframe"];
+    let mut k = 0usize;
+    for (target, len, sides) in targets {
+        for side in sides {
+            // the unsegmented reference
+            for rt in RTS {
+                emit("ctrl.cut", vec![s(rt), s(side), s(target), s(0), s("none")]);
+            }
+            let cuts: Vec<usize> = if thorough {
+                (1..len).collect()
+            } else {
+                let mut c = vec![1, 2, len / 2, len - 1];
+                c.sort_unstable();
+                c.dedup();
+                c.retain(|x| *x > 0 && *x < len);
+                c
+            };
+            for cut in cuts {
+                for event in events {
+                    // `ctrlframe` needs the other critical stream to exist
+                    if event == "ctrlframe"
+                        && (target == "settings" || (target == "grease_ctrl" && *side == "server"))
+                    {
+                        continue;
+                    }
+                    if thorough {
+                        for rt in RTS {
+                            emit("ctrl.cut", vec![s(rt), s(side), s(target), s(cut), s(event)]);
+                        }
+                    } else {
+                        k += 1;
+                        emit(
+                            "ctrl.cut",
+                            vec![s(RTS[k % 2]), s(side), s(target), s(cut), s(event)],
+                        );
+                    }
+                }
+            }
+        }
+    }
+}
+
+// ---- rules scripts
+
+fn hx(b: &[u8]) -> String {
+    // inside a script the empty byte string is the empty text
+    if b.is_empty() {
+        String::new()
+    } else {
+        hex(b)
+    }
+}
+
+/// `type varint ++ declared length varint` without any payload.
+fn frame_head(ty: u64, declared: u64) -> Vec<u8> {
+    let mut b = wire::varint(ty);
+    wire::put_varint(&mut b, declared);
+    b
+}
+
+fn ok200() -> Vec<u8> {
+    wire::headers_frame(&[(":status", "200")])
+}
+
+fn emit_rules(emit: &mut dyn FnMut(&str, Vec<String>), k: &mut usize, thorough: bool, side: &str, script: &str) {
+    if thorough {
+        for rt in RTS {
+            emit("rules", vec![s(rt), s(side), s(script)]);
+        }
+    } else {
+        *k += 1;
+        emit("rules", vec![s(RTS[*k % 2]), s(side), s(script)]);
+    }
+}
+
+fn gen_c12(thorough: bool, _rng: &mut Rng, emit: &mut dyn FnMut(&str, Vec<String>)) {
+    let settings = wire::std_settings_frame();
+    let data = wire::frame(wire::FRAME_DATA, b"a");
+    let headers = wire::std_request_frame();
+    let grease = wire::grease_frame(&[]);
+    let mut k = 0usize;
+    let cat = |parts: &[&[u8]]| -> String {
+        let mut v = vec![];
+        for p in parts {
+            v.extend_from_slice(p);
+        }
+        hx(&v)
+    };
+    // the client's request only shows up after SETTINGS; scripts for side=client answer it so
+    // that the outcome is decided by the rule under test
+    let mut fixed: Vec<(&str, String)> = vec![];
+    for side in SIDES {
+        let end = if side == "server" { "std_request".to_string() } else { format!("resp:{}", hx(&ok200())) };
+        fixed.push((side, s("std_settings")));
+        fixed.push((side, format!("std_settings;{end}")));
+        // control stream: first frame must be SETTINGS, exactly once, no DATA / HEADERS
+        fixed.push((side, format!("ctrl:{}", cat(&[&[0], &data]))));
+        fixed.push((side, format!("ctrl:{};{end}", cat(&[&[0], &grease, &settings]))));
+        fixed.push((side, format!("ctrl:{};{end}", cat(&[&[0], &settings, &settings]))));
+        fixed.push((side, format!("std_settings;more:0:{};{end}", hx(&settings))));
+        fixed.push((side, format!("ctrl:{}", cat(&[&[0], &headers]))));
+        fixed.push((side, format!("std_settings;more:0:{};{end}", hx(&headers))));
+        fixed.push((side, format!("std_settings;more:0:{};{end}", hx(&data))));
+        fixed.push((side, format!("std_settings;more:0:{};{end}", hx(&wire::wt_bi_preamble(0)))));
+        // duplicated critical streams
+        fixed.push((side, format!("std_settings;uni:00;{end}")));
+        fixed.push((side, format!("std_settings;uni:{};{end}", cat(&[&[0], &settings]))));
+        fixed.push((side, format!("std_settings;uni:02;uni:02;{end}")));
+        fixed.push((side, format!("std_settings;uni:03;uni:03;{end}")));
+        fixed.push((side, s("uni:02;uni:02")));
+        fixed.push((side, s("uni:03;uni:03")));
+        fixed.push((side, format!("std_settings;uni:02;uni:03;{end}")));
+        // closed critical streams
+        fixed.push((side, format!("std_settings;fin:0;{end}")));
+        fixed.push((side, format!("std_settings;reset:0:5;{end}")));
+        fixed.push((side, format!("std_settings;{end};wait:100;fin:0")));
+        fixed.push((side, format!("std_settings;{end};wait:100;reset:0:5")));
+        fixed.push((side, format!("std_settings;uni:02;fin:1;{end}")));
+        fixed.push((side, format!("std_settings;uni:03;reset:1:9;{end}")));
+        fixed.push((side, s("unifin:00")));
+        // SETTINGS contents
+        fixed.push((side, format!("ctrl:0004020200;{end}")));
+        for reserved in [0u64, 3, 4, 5] {
+            fixed.push((side, format!("ctrl:{};{end}", cat(&[&[0], &wire::settings_frame(&[(8, 1), (reserved, 0)])]))));
+        }
+        fixed.push((side, format!("ctrl:{};{end}", cat(&[&[0], &wire::settings_frame(&[(8, 1), (8, 1)])]))));
+        fixed.push((side, format!("ctrl:{};{end}", cat(&[&[0], &wire::settings_frame(&[(0x33, 1), (8, 1), (0x33, 0)])]))));
+        fixed.push((side, format!("ctrl:{};{end}", cat(&[&[0], &wire::settings_frame(&[(0x21, 1), (0x21, 2)])]))));
+        // unknown ids and values are fine
+        fixed.push((side, format!("ctrl:{};{end}", cat(&[&[0], &wire::settings_frame(&[(8, 1), (0x9999, 7), (0x33, 1), (0x2b60_3742, 1)])]))));
+        // truncated payloads: id without value, value cut inside its varint
+        fixed.push((side, format!("ctrl:00040108;{end}")));
+        fixed.push((side, format!("ctrl:000403080140;{end}")));
+        fixed.push((side, format!("ctrl:0004024008;{end}")));
+        // empty SETTINGS is a SETTINGS
+        fixed.push((side, format!("ctrl:000400;{end}")));
+        // oversize on the control stream, FIN inside a frame
+        fixed.push((side, format!("ctrl:{};{end}", cat(&[&[0], &frame_head(4, 4097)]))));
+        fixed.push((side, format!("std_settings;more:0:{};{end}", hx(&frame_head(0x21, 4097)))));
+        fixed.push((side, s("unifin:000408")));
+        fixed.push((side, format!("std_settings;more:0:2105aa;fin:0;{end}")));
+    }
+    // request stream (side=server)
+    let sv = "server";
+    fixed.push((sv, format!("std_settings;req:{}", hx(&settings))));
+    fixed.push((sv, format!("std_settings;req:{}", hx(&data))));
+    fixed.push((sv, format!("req:{}", hx(&data))));
+    fixed.push((sv, format!("std_settings;req:{}", cat(&[&grease, &data]))));
+    fixed.push((sv, format!("std_settings;req:{}", cat(&[&headers, &wire::wt_bi_preamble(0)]))));
+    fixed.push((sv, format!("std_settings;std_request;wait:100;more:1:{}", hx(&wire::wt_bi_preamble(0)))));
+    fixed.push((sv, format!("std_settings;req:{}", cat(&[&grease, &wire::wt_bi_preamble(0), b"x"]))));
+    fixed.push((sv, format!("std_settings;req:{}", cat(&[&data, &wire::wt_bi_preamble(0)]))));
+    fixed.push((sv, s("std_settings;req:404101")));
+    fixed.push((sv, s("std_settings;req:404102")));
+    fixed.push((sv, s("std_settings;req:404103")));
+    fixed.push((sv, s("std_settings;req:404104")));
+    fixed.push((sv, s("std_settings;uni:405401")));
+    fixed.push((sv, s("std_settings;uni:405404")));
+    fixed.push((sv, format!("std_settings;req:{}", hx(&frame_head(0, 4097)))));
+    fixed.push((sv, format!("std_settings;req:{}", hx(&frame_head(1, 4097)))));
+    fixed.push((sv, format!("std_settings;req:{}", hx(&frame_head(0, 4096)))));
+    fixed.push((sv, format!("std_settings;std_request;wait:100;more:1:{}", hx(&frame_head(0, 4097)))));
+    fixed.push((sv, format!("std_settings;std_request;wait:100;more:1:{}", hx(&frame_head(1, 4097)))));
+    fixed.push((sv, s("std_settings;reqfin:0105aabb")));
+    fixed.push((sv, s("std_settings;reqfin:01")));
+    fixed.push((sv, s("std_settings;reqfin:40")));
+    fixed.push((sv, s("std_settings;reqfin:")));
+    fixed.push((sv, s("std_settings;std_request;wait:100;more:1:0005aa;fin:1")));
+    fixed.push((sv, s("std_settings;std_request;wait:100;more:1:00;fin:1")));
+    fixed.push((sv, s("std_settings;std_request;wait:100;reset:1:3")));
+    fixed.push((sv, format!("std_settings;std_request;wait:100;more:1:{}", hx(&settings))));
+    fixed.push((sv, format!("std_settings;std_request;wait:100;more:1:{}", hx(&headers))));
+    fixed.push((sv, format!("std_settings;std_request;wait:100;more:1:{}", hx(&data))));
+    // a second request while the first one is pending / no SETTINGS at all
+    fixed.push((sv, s("std_settings;std_request;std_request")));
+    fixed.push((sv, s("std_request")));
+    // response stream (side=client)
+    let cl = "client";
+    fixed.push((cl, format!("std_settings;resp:{}", hx(&data))));
+    fixed.push((cl, format!("std_settings;resp:{}", hx(&settings))));
+    fixed.push((cl, format!("std_settings;resp:{}", cat(&[&grease, &ok200()]))));
+    fixed.push((cl, format!("std_settings;resp:{}", hx(&wire::wt_bi_preamble(0)))));
+    fixed.push((cl, format!("std_settings;resp:{}", hx(&frame_head(1, 4097)))));
+    fixed.push((cl, format!("std_settings;resp:{};wait:100;resp:{}", hx(&ok200()), hx(&settings))));
+    fixed.push((cl, format!("std_settings;resp:{};wait:100;resp:{}", hx(&ok200()), hx(&wire::wt_bi_preamble(0)))));
+    for (side, script) in &fixed {
+        emit_rules(emit, &mut k, thorough, side, script);
+    }
+
+    // every short frame history on the control stream (both sides) and on the request stream
+    let ctrl_alpha: Vec<Vec<u8>> = vec![
+        settings.clone(),
+        data.clone(),
+        headers.clone(),
+        grease.clone(),
+        wire::wt_bi_preamble(0),
+        frame_head(0, 4097),
+        wire::frame(0x07, &[0]),
+    ];
+    let req_alpha: Vec<Vec<u8>> = vec![
+        data.clone(),
+        headers.clone(),
+        settings.clone(),
+        grease.clone(),
+        wire::wt_bi_preamble(0),
+        wire::wt_bi_preamble(1),
+        frame_head(0, 4097),
+        wire::frame(0x07, &[0]),
+    ];
+    let depth = if thorough { 3 } else { 2 };
+    for side in SIDES {
+        for seq in sequences(ctrl_alpha.len(), depth) {
+            let mut b = vec![0u8];
+            for i in &seq {
+                b.extend_from_slice(&ctrl_alpha[*i]);
+            }
+            let end = if side == "server" { "std_request".to_string() } else { format!("resp:{}", hx(&ok200())) };
+            emit_rules(emit, &mut k, false, side, &format!("ctrl:{};{end}", hx(&b)));
+        }
+    }
+    for seq in sequences(req_alpha.len(), depth) {
+        let mut b = vec![];
+        for i in &seq {
+            b.extend_from_slice(&req_alpha[*i]);
+        }
+        emit_rules(emit, &mut k, false, "server", &format!("std_settings;req:{}", hx(&b)));
+        if thorough {
+            emit_rules(emit, &mut k, false, "server", &format!("std_settings;reqfin:{}", hx(&b)));
+        }
+    }
+}
+
+/// Every non-empty sequence over `0..n` of length at most `depth`.
+fn sequences(n: usize, depth: usize) -> Vec<Vec<usize>> {
+    let mut out: Vec<Vec<usize>> = vec![];
+    let mut level: Vec<Vec<usize>> = vec![vec![]];
+    for _ in 0..depth {
+        let mut next = vec![];
+        for p in &level {
+            for i in 0..n {
+                let mut q = p.clone();
+                q.push(i);
+                next.push(q);
+            }
+        }
+        out.extend(next.iter().cloned());
+        level = next;
+    }
+    out
+}
+
+fn gen_c13(thorough: bool, rng: &mut Rng, emit: &mut dyn FnMut(&str, Vec<String>)) {
+    let settings = wire::std_settings_frame();
+    let headers = wire::std_request_frame();
+    let capsule = close_capsule(7, b"bye");
+    // (type bytes as sent, is GREASE)
+    let mut types: Vec<Vec<u8>> = vec![
+        wire::varint(0x07),
+        wire::varint(0x0d),
+        wire::varint(0x1234),
+        wire::varint(0x1234_5678),
+        wire::varint(0x0123_4567_89ab_cdef),
+        wire::varint_len(0x07, 2),
+        wire::varint_len(0x0d, 4),
+        wire::varint_len(0x03, 8),
+        wire::varint(0x21),
+        wire::varint(0x40),
+        wire::varint(0x21 + 0x1f * 1000),
+        wire::varint(0x21 + 0x1f * 0x0100_0000),
+        wire::varint_len(0x21, 8),
+    ];
+    if thorough {
+        for _ in 0..6 {
+            // random unknown / GREASE types
+            let t = loop {
+                let t = rng.varint62();
+                if ![0u64, 1, 4, 0x41].contains(&t) {
+                    break t;
+                }
+            };
+            types.push(wire::varint(t));
+            let g = 0x21 + 0x1f * rng.below(1 << 40);
+            types.push(wire::varint(g));
+        }
+    }
+    let payloads: Vec<Vec<u8>> = vec![
+        vec![],
+        vec![0xaa, 0xbb],
+        vec![0x5a; 300],
+        vec![0x5a; 5000],
+        vec![0x01, 0x00],
+        vec![0x04, 0x01, 0x00],
+        vec![0x00; 300],
+    ];
+    let mut k = 0usize;
+    let mut xs: Vec<Vec<u8>> = vec![];
+    for t in &types {
+        for p in &payloads {
+            let mut x = t.clone();
+            wire::put_varint(&mut x, p.len() as u64);
+            x.extend_from_slice(p);
+            xs.push(x);
+        }
+    }
+    // two insertions in a row
+    let mut two = xs[0].clone();
+    two.extend_from_slice(&xs[xs.len() - 3]);
+    xs.push(two);
+
+    let cat = |parts: &[&[u8]]| -> String {
+        let mut v = vec![];
+        for p in parts {
+            v.extend_from_slice(p);
+        }
+        hx(&v)
+    };
+    // insertion points: (side, script with `X`, script without)
+    let points = |x: &[u8]| -> Vec<(&'static str, String, String)> {
+        let r200 = ok200();
+        vec![
+            // control stream after SETTINGS, same write / separate write
+            ("server", format!("ctrl:{};std_request", cat(&[&[0], &settings, x])), format!("ctrl:{};std_request", cat(&[&[0], &settings]))),
+            ("server", format!("std_settings;more:0:{};std_request", hx(x)), s("std_settings;std_request")),
+            ("server", format!("std_settings;std_request;wait:100;more:0:{}", hx(x)), s("std_settings;std_request;wait:100")),
+            // request stream before / after HEADERS
+            ("server", format!("std_settings;req:{}", cat(&[x, &headers])), format!("std_settings;req:{}", hx(&headers))),
+            ("server", format!("std_settings;req:{}", cat(&[&headers, x])), format!("std_settings;req:{}", hx(&headers))),
+            ("server", format!("std_settings;std_request;wait:100;more:1:{}", hx(x)), s("std_settings;std_request;wait:100")),
+            // ... followed by a close capsule: the surrounding elements keep their meaning
+            ("server", format!("std_settings;std_request;wait:100;more:1:{}", cat(&[x, &capsule])), format!("std_settings;std_request;wait:100;more:1:{}", hx(&capsule))),
+            ("client", format!("ctrl:{};resp:{}", cat(&[&[0], &settings, x]), hx(&r200)), format!("ctrl:{};resp:{}", cat(&[&[0], &settings]), hx(&r200))),
+            ("client", format!("std_settings;resp:{}", cat(&[x, &r200])), format!("std_settings;resp:{}", hx(&r200))),
+            ("client", format!("std_settings;resp:{}", cat(&[&r200, x, &capsule])), format!("std_settings;resp:{}", cat(&[&r200, &capsule]))),
+        ]
+    };
+    for (xi, x) in xs.iter().enumerate() {
+        let ps = points(x);
+        for (pi, (side, with, without)) in ps.iter().enumerate() {
+            // quick: every insertion once, at an insertion point that rotates
+            if !thorough && (xi + xi / ps.len()) % ps.len() != pi {
+                continue;
+            }
+            k += 1;
+            let rt = RTS[k % 2];
+            emit("rules", vec![s(rt), s(side), with.clone()]);
+            emit("rules", vec![s(rt), s(side), without.clone()]);
+        }
+    }
+
+    // unknown and GREASE unidirectional stream types, unknown capsules
+    let base = "std_settings;std_request";
+    let mut extra: Vec<(&str, String, String)> = vec![];
+    for side in SIDES {
+        let (pre, end) = if side == "server" {
+            ("std_settings".to_string(), "std_request".to_string())
+        } else {
+            ("std_settings".to_string(), format!("resp:{}", hx(&ok200())))
+        };
+        let without = format!("{pre};{end}");
+        for u in [
+            "uni:3f7a7a",
+            "unifin:3f",
+            "uni:3f",
+            "uni:21aabb",
+            "unifin:21",
+            "uni:4040",
+            "unifin:40407a7a7a",
+            "uni:07",
+            "unifin:c0000000000000ff00",
+            "uni:3f7a7a;uni:21;unifin:3e",
+            "uni:405500",
+            "uni:01",
+        ] {
+            extra.push((side, format!("{pre};{u};{end}"), without.clone()));
+            extra.push((side, format!("{u};{pre};{end}"), without.clone()));
+        }
+        // the same after the session exists
+        extra.push((side, format!("{pre};{end};wait:100;uni:3f7a7a;unifin:21"), format!("{pre};{end};wait:100")));
+    }
+    let cap = |ty: u64, payload: &[u8]| -> Vec<u8> {
+        let mut c = wire::varint(ty);
+        wire::put_varint(&mut c, payload.len() as u64);
+        c.extend_from_slice(payload);
+        wire::frame(wire::FRAME_DATA, &c)
+    };
+    let mut caps: Vec<Vec<u8>> = vec![
+        cap(0x17, &[0xaa, 0xbb]),
+        cap(0x00, &[]),
+        cap(0x2842, &[0, 0, 0, 1]),
+        cap(0x2844, &[0, 0, 0, 1]),
+        cap(0x21, &[0x5a; 300]),
+        cap(0x78ae, &[0x5a; 4000]),
+        // DATA frames that are no capsule at all
+        wire::frame(wire::FRAME_DATA, &[]),
+        wire::frame(wire::FRAME_DATA, &[0x40]),
+        wire::frame(wire::FRAME_DATA, &[0x17, 0x05, 0xaa]),
+        // a close capsule split over two DATA frames is an unknown capsule twice
+    ];
+    let mut both = caps[0].clone();
+    both.extend_from_slice(&caps[3]);
+    caps.push(both);
+    for c in &caps {
+        extra.push((
+            "server",
+            format!("{base};wait:100;more:1:{}", hx(c)),
+            format!("{base};wait:100"),
+        ));
+        extra.push((
+            "server",
+            format!("{base};wait:100;more:1:{}", cat(&[c, &capsule])),
+            format!("{base};wait:100;more:1:{}", hx(&capsule)),
+        ));
+        extra.push((
+            "client",
+            format!("std_settings;resp:{}", cat(&[&ok200(), c, &capsule])),
+            format!("std_settings;resp:{}", cat(&[&ok200(), &capsule])),
+        ));
+    }
+    // unknown settings inside SETTINGS
+    let st_with = wire::settings_frame(&[(8, 1), (0x9999, 5), (0x33, 1), (0x21, 9), (0x2b60_3742, 1), (0x40, 0)]);
+    extra.push((
+        "server",
+        format!("ctrl:{};std_request", cat(&[&[0], &st_with])),
+        s("std_settings;std_request"),
+    ));
+    extra.push((
+        "client",
+        format!("ctrl:{};resp:{}", cat(&[&[0], &st_with]), hx(&ok200())),
+        format!("std_settings;resp:{}", hx(&ok200())),
+    ));
+    for (side, with, without) in extra {
+        if thorough {
+            for rt in RTS {
+                emit("rules", vec![s(rt), s(side), with.clone()]);
+                emit("rules", vec![s(rt), s(side), without.clone()]);
+            }
+        } else {
+            k += 1;
+            let rt = RTS[k % 2];
+            emit("rules", vec![s(rt), s(side), with]);
+            emit("rules", vec![s(rt), s(side), without]);
+        }
+    }
+}
+
+fn gen_c16(_thorough: bool, _rng: &mut Rng, emit: &mut dyn FnMut(&str, Vec<String>)) {
+    for side in SIDES {
+        for scenario in ["connect_accept", "connect_reject", "streams", "dgram"] {
+            for rt in RTS {
+                emit("wire.record", vec![s(rt), s(side), s(scenario)]);
+            }
+        }
+    }
 }
